@@ -450,8 +450,10 @@ where
         // add the new element in the qp vector as the last in the heap
         self.store.qp.push(Position(i));
         self.store.heap.push(Index(i));
-        self.bubble_up(Position(i), Index(i));
+        // the tables are consistent now: count the element before running
+        // comparisons that may panic
         self.store.size += 1;
+        self.bubble_up(Position(i), Index(i));
         None
     }
 
@@ -745,13 +747,20 @@ where
     /// than the new element is found
     fn bubble_up(&mut self, mut position: Position, map_position: Index) -> Position {
         let priority = self.store.map.get_index(map_position.0).unwrap().1;
-        let mut parent_position = Position(0);
-        while if position.0 > 0 {
-            parent_position = parent(position);
-            (unsafe { self.store.get_priority_from_position(parent_position) }) < priority
-        } else {
-            false
-        } {
+        // First find the final position: comparing runs user code that may
+        // panic, so the tables are not touched until all comparisons are done
+        let mut target = position;
+        while target.0 > 0 {
+            let parent_position = parent(target);
+            if (unsafe { self.store.get_priority_from_position(parent_position) }) < priority {
+                target = parent_position;
+            } else {
+                break;
+            }
+        }
+        // then move the ancestors down
+        while position != target {
+            let parent_position = parent(position);
             unsafe {
                 let parent_index = *self.store.heap.get_unchecked(parent_position.0);
                 *self.store.heap.get_unchecked_mut(position.0) = parent_index;
